@@ -5,6 +5,7 @@ repository; every history gets its own collections and its own datasets, so hist
 
 Numbering shared with the Coq model (coq/Model/Calib.v) and the oracle (harness/props/c04.py):
   collections   0,1 = CALIBRATION   2 = RUN (holds the k=0 datasets)   3 = TAGGED   4 = RUN (k=1 datasets)
+                5 = CHAINED [1, 0]   6 = CHAINED [0, 2]   8 = CHAINED [5, 4, 0]   (searched only, never written to)
                 7   = never registered
   dataset types 0,1 = calibration {instrument, detector}   2 = NOT calibration   7 = never registered
   data ids      detector 0,1,2
@@ -21,7 +22,11 @@ NDID = 3
 
 
 def _coll_name(h, c):
-    return {0: f"h{h}/calibA", 1: f"h{h}/calibB", 2: f"h{h}/run0", 3: f"h{h}/tag", 4: f"h{h}/run1"}.get(c, f"h{h}/missing{c}")
+    return {0: f"h{h}/calibA", 1: f"h{h}/calibB", 2: f"h{h}/run0", 3: f"h{h}/tag", 4: f"h{h}/run1",
+            5: f"h{h}/chainBA", 6: f"h{h}/chainArun0", 8: f"h{h}/chainNested"}.get(c, f"h{h}/missing{c}")
+
+
+CHAINS = {5: [1, 0], 6: [0, 2], 8: [5, 4, 0]}
 
 
 def _ts(Timespan, p):
@@ -47,6 +52,9 @@ def _setup_history(butler, types, h):
     reg.registerCollection(_coll_name(h, 2), CollectionType.RUN)
     reg.registerCollection(_coll_name(h, 3), CollectionType.TAGGED)
     reg.registerCollection(_coll_name(h, 4), CollectionType.RUN)
+    for c, kids in CHAINS.items():
+        reg.registerCollection(_coll_name(h, c), CollectionType.CHAINED)
+        reg.setCollectionChain(_coll_name(h, c), [_coll_name(h, k) for k in kids])
     refs = {}
     for t, dt in types.items():
         for k in (0, 1):
@@ -163,8 +171,15 @@ def run_histories(payload):
                         for pi in hist.get("path_probes", range(len(probes))):
                             pth.append([qi, t, d, pi, _find(butler, TYPE_NAMES[t], d, names, probes[pi], ds_num)])
                 obs["path"] = pth
+                xp = []
+                for xi, path in enumerate(hist.get("xpaths", [])):
+                    names = [_coll_name(h, c) for c in path]
+                    for (t, d) in sorted({(t, d) for (_, t, d) in hist["keys"]}):
+                        for pi in hist.get("xpath_probes", []):
+                            xp.append([xi, t, d, pi, _find(butler, TYPE_NAMES[t], d, names, probes[pi], ds_num)])
+                obs["xpath"] = xp
                 if hist.get("query_datasets") or payload.get("query_datasets"):
-                    obs["qd"] = _query_datasets(butler, h, hist, probes, ds_num)
+                    obs["qd"], obs["qdp"] = _query_datasets(butler, h, hist, probes, ds_num)
                 steps.append(obs)
             results.append({"steps": steps, "wall": round(time.time() - t0, 2)})
         return {"results": results}
@@ -180,19 +195,27 @@ def _query_datasets(butler, h, hist, probes, ds_num):
     """New query system: find-first search of one calibration collection with a temporal constraint
     (`<type>.timespan OVERLAPS :ts`); ambiguity must be reported, not resolved arbitrarily."""
     from lsst.daf.butler import CalibrationLookupError
+    def one(names, t, d, p):
+        try:
+            with butler.query() as q:
+                q = q.join_dataset_search(TYPE_NAMES[t], names)
+                q = q.where(f"instrument = 'Cam' AND detector = {d} AND {TYPE_NAMES[t]}.timespan OVERLAPS ts", bind={"ts": p})
+                refs = list(q.datasets(TYPE_NAMES[t], names, find_first=True))
+            return sorted(ds_num.get(r.id, -3) for r in refs)
+        except CalibrationLookupError:
+            return -2
+        except Exception as e:  # noqa: BLE001
+            return "E:" + fixture.err_class(e) + ":" + str(e)[:80]
+
     out = []
     for (c, t, d) in hist["keys"]:
         for pi in hist.get("qd_probes", range(len(probes))):
-            p = probes[pi]
-            try:
-                with butler.query() as q:
-                    q = q.join_dataset_search(TYPE_NAMES[t], [_coll_name(h, c)])
-                    q = q.where(f"instrument = 'Cam' AND detector = {d} AND {TYPE_NAMES[t]}.timespan OVERLAPS ts", bind={"ts": p})
-                    refs = list(q.datasets(TYPE_NAMES[t], [_coll_name(h, c)], find_first=True))
-                res = sorted(ds_num.get(r.id, -3) for r in refs)
-            except CalibrationLookupError:
-                res = -2
-            except Exception as e:  # noqa: BLE001
-                res = "E:" + fixture.err_class(e) + ":" + str(e)[:80]
-            out.append([c, t, d, pi, res])
-    return out
+            out.append([c, t, d, pi, one([_coll_name(h, c)], t, d, probes[pi])])
+    # the same search over an ordered path of calibration collections (a CHAINED collection or a list)
+    outp = []
+    for qi, path in enumerate(hist.get("qd_paths", [])):
+        names = [_coll_name(h, c) for c in path]
+        for (t, d) in sorted({(t, d) for (_, t, d) in hist["keys"]}):
+            for pi in hist.get("qd_probes", range(len(probes)))[:4]:
+                outp.append([qi, t, d, pi, one(names, t, d, probes[pi])])
+    return out, outp
